@@ -107,4 +107,49 @@ def run (cd : Codec) (s : Sys) : List Op → Sys × List Out
     let r2 := run cd r.1 ops
     (r2.1, r.2 :: r2.2)
 
+/-! ### the transport with a message-size limit
+
+gRPC refuses a message larger than the receiver's limit (4 MiB by default, on both sides) with
+ResourceExhausted, which the client maps to ErrNoFreeSpace.  Two kinds of message grow with the
+caller's data: the header of a request carries the key, and the answer of GetKeys carries every
+key in ONE message; contents travel in chunks of `chunk` bytes (assumed below the limit). -/
+
+def keySize (k : Key) : Nat := k.utf8ByteSize
+
+def reqKey : Op → Option Key
+  | .set _ k _ => some k
+  | .del _ k => some k
+  | .get _ k => some k
+  | _ => none
+
+def reqFits (lim : Nat) (op : Op) : Bool :=
+  match reqKey op with
+  | some k => keySize k ≤ lim
+  | none => true
+
+def replyFits (lim : Nat) : Out → Bool
+  | .keys ks => (ks.map keySize).sum ≤ lim
+  | _ => true
+
+/-- one call over the limited transport: a request over the limit is refused by the server before
+    the handler runs; an answer over the limit is refused by the client after the handler has run -/
+def callLim (cd : Codec) (lim : Nat) (s : Sys) (op : Op) : Sys × Out :=
+  if reqFits lim op then
+    let r := s.step (decodeReq cd (encodeReq cd op))
+    if replyFits lim r.2 then (r.1, decodeReply cd (encodeReply cd r.2))
+    else (r.1, .err .noFreeSpace)
+  else (s, .err .noFreeSpace)
+
+def runLim (cd : Codec) (lim : Nat) (s : Sys) : List Op → Sys × List Out
+  | [] => (s, [])
+  | op :: ops =>
+    let r := callLim cd lim s op
+    let r2 := runLim cd lim r.1 ops
+    (r2.1, r.2 :: r2.2)
+
+/-- every message of the history fits -/
+def Fits (lim : Nat) (s : Sys) : List Op → Prop
+  | [] => True
+  | op :: ops => reqFits lim op = true ∧ replyFits lim (s.step op).2 = true ∧ Fits lim (s.step op).1 ops
+
 end FsDb.Rpc
